@@ -340,3 +340,27 @@ mut("C12", "r5-delete-is-read", "api/authentication.go",
     "\tcase http.MethodGet, http.MethodHead:\n\t\treturn http.MethodGet, true, true\n\tcase http.MethodPost, http.MethodPut, http.MethodDelete:", "\tcase http.MethodGet, http.MethodHead, http.MethodDelete:\n\t\treturn http.MethodGet, true, true\n\tcase http.MethodPost, http.MethodPut:", "C12-R5|method class table")
 mut("C12", "r5-write-returns-read", "api/endpoints.go",
     "\tif apiEndpoint != nil {\n\t\treturn apiEndpoint.Write\n\t}", "\tif apiEndpoint != nil {\n\t\treturn apiEndpoint.Read\n\t}", "C12-R5|WritePermission")
+
+# ---- C13 -------------------------------------------------------------------
+mut("C13", "r1-delete-double-reply", "api/database.go",
+    "\terr := api.db.Delete(key)\n\tif err != nil {\n\t\tapi.send(opID, dbMsgTypeError, err.Error(), nil)\n\t\treturn\n\t}", "\terr := api.db.Delete(key)\n\tif err != nil {\n\t\tapi.send(opID, dbMsgTypeError, err.Error(), nil)\n\t}", "C13-R1|handleDelete / exactly one reply", canary=True)
+mut("C13", "r1-get-nil-opid", "api/database.go",
+    "\tapi.send(opID, dbMsgTypeOk, r.Key(), data)\n}\n\nfunc (api *DatabaseAPI) handleQuery", "\tapi.send(nil, dbMsgTypeOk, r.Key(), data)\n}\n\nfunc (api *DatabaseAPI) handleQuery", "C13-R1|operation ID")
+mut("C13", "r1-put-no-reply-on-error", "api/database.go",
+    "\tif err != nil {\n\t\tapi.send(opID, dbMsgTypeError, err.Error(), nil)\n\t\treturn\n\t}\n\tapi.send(opID, dbMsgTypeSuccess, emptyString, nil)\n}\n\nfunc (api *DatabaseAPI) handleInsert", "\tif err != nil {\n\t\treturn\n\t}\n\tapi.send(opID, dbMsgTypeSuccess, emptyString, nil)\n}\n\nfunc (api *DatabaseAPI) handleInsert", "C13-R1|handlePut / exactly one reply")
+mut("C13", "r1-query-no-done-on-error", "api/database.go",
+    "\t\t\t\tif it.Err() != nil {\n\t\t\t\t\tapi.send(opID, dbMsgTypeError, it.Err().Error(), nil)\n\t\t\t\t\treturn false\n\t\t\t\t}", "\t\t\t\tif it.Err() != nil {\n\t\t\t\t\treturn false\n\t\t\t\t}", "C13-R1|processQuery / exit")
+mut("C13", "r1-get-wrong-type", "api/database.go",
+    "\tapi.send(opID, dbMsgTypeOk, r.Key(), data)\n}\n\nfunc (api *DatabaseAPI) handleQuery", "\tapi.send(opID, dbMsgTypeSuccess, r.Key(), data)\n}\n\nfunc (api *DatabaseAPI) handleQuery", "C13-R1|message type")
+mut("C13", "r1-qsub-query-first", "api/database.go",
+    "\tsub, ok := api.registerSub(opID, q)\n\tif !ok {\n\t\treturn\n\t}\n\tok = api.processQuery(opID, q)\n\tif !ok {\n\t\treturn\n\t}\n\tapi.processSub(opID, sub)", "\tok := api.processQuery(opID, q)\n\tif !ok {\n\t\treturn\n\t}\n\tsub, ok := api.registerSub(opID, q)\n\tif !ok {\n\t\treturn\n\t}\n\tapi.processSub(opID, sub)", "C13-R1|subscribe before query")
+mut("C13", "r2-update-creates", "api/database.go",
+    "\t\t\tgo api.handlePut(parts[0], string(dataParts[0]), dataParts[1], false)", "\t\t\tgo api.handlePut(parts[0], string(dataParts[0]), dataParts[1], true)", "C13-R2|dispatch table")
+mut("C13", "r2-malformed-dropped", "api/database.go",
+    "\tif len(parts) != 3 {\n\t\tapi.send(nil, dbMsgTypeError, \"bad request: malformed message\", nil)\n\t\treturn\n\t}", "\tif len(parts) != 3 {\n\t\treturn\n\t}", "C13-R2|dispatch table")
+mut("C13", "r2-sub-to-qsub", "api/database.go",
+    "\t\tgo api.handleSub(parts[0], string(parts[2]))", "\t\tgo api.handleQsub(parts[0], string(parts[2]))", "C13-R2|")
+mut("C13", "r3-insert-no-nil-check", "api/database.go",
+    "\tif acc == nil {\n\t\tapi.send(opID, dbMsgTypeError, \"record does not support inserting values\", nil)\n\t\treturn\n\t}\n", "", "C13-R3|handleInsert", comment="reverts fix ed67906")
+mut("C13", "r3-matches-no-nil-check", "database/query/query.go",
+    "\tacc := r.GetAccessor(r)\n\tif acc == nil {\n\t\treturn false\n\t}\n\treturn q.where.complies(acc)", "\tacc := r.GetAccessor(r)\n\treturn q.where.complies(acc)", "C13-R3|MatchesRecord")
